@@ -11,7 +11,7 @@
    span  :=  N x<name> <kind> <start|NOW> <duration|NOW> <status> x<desc> <ctx 0/1> | A {; oattr}* {| E x<name> <ts|NOW> {; oattr}*}*
              {| L link {; oattr}*}* | R {; oattr}* | S x<name> x<version> x<schema>
    oattr :=  as attr, without type c *)
-From V Require Export C04.Spec.
+From V Require Export C04.Spec C04.SpecRace.
 From Coq Require Import String.
 Local Open Scope Z_scope.
 
@@ -369,7 +369,7 @@ Definition parse_obs (l : list tok) : option (list bool * list (list sdata)) :=
   end.
 
 (* ------------------------------------------------------------------ entry points *)
-Definition run_model (l : list tok) : list tok :=
+Definition run_model_seq (l : list tok) : list tok :=
   match parse_case l with
   | Some c => print_world (run_compiled (cs_cfg c) (cs_start c) (cs_ops c))
   | None => bad_case
@@ -385,7 +385,7 @@ Definition nat_tag (n : nat) : string :=
   match n with O => "0" | 1%nat => "1" | 2%nat => "2" | 3%nat => "3" | _ => "4" end.
 
 (* branch tag: sampled?, number of processors, how the span was ended, whether anything came after End *)
-Definition run_tag (l : list tok) : list tok :=
+Definition run_tag_seq (l : list tok) : list tok :=
   match parse_case l with
   | Some c =>
       let ops := cs_ops c in
@@ -399,7 +399,7 @@ Definition run_tag (l : list tok) : list tok :=
   | None => bad_case
   end.
 
-Definition run_spec (l obs : list tok) : list tok :=
+Definition run_spec_seq (l obs : list tok) : list tok :=
   match parse_case l with
   | Some c => match parse_obs obs with
               | Some o => spec_check (cs_cfg c) (cs_start c) (cs_ops c) o
@@ -407,3 +407,161 @@ Definition run_spec (l obs : list tok) : list tok :=
               end
   | None => bad_case
   end.
+
+(* ================================================================== SRACE: one span, several threads, End racing
+   case  :=  SRACE {S|Q}+ | ST x<name> <kind> <start_system> <start_steady> {; attr}* | T {| op}* | T {| op}* ... | s <tid> <flag>...
+             (no implicit time stamps: start times and End times non-zero, events EVT / EVTA; event names pairwise distinct;
+              1..4 threads; the controller ends the span with END 7777 after the threads have finished)
+   observation (runner TRACE_MODE):  OK || H {B|R <tid> <idx> <res>}* X <observation of the exporters as above>
+   [run_model] is an acceptor: it checks that the history is a history of this case (every call of every thread begins and
+   returns, in the order of the thread's operation list, then the controller's End) and answers OK; the SPEC (SpecRace.v) is
+   evaluated on the history and the exports. *)
+Fixpoint cut_bars (l : list tok) : list tok * list tok :=
+  match l with
+  | [] => ([], [])
+  | t :: r => if is_tag "||" t then ([], r) else let '(a, b) := cut_bars r in (t :: a, b)
+  end.
+
+Record rcase := mk_rcase { rc_cfg : cfg aval; rc_start : start aval; rc_threads : list (list (op aval)) }.
+
+Definition final_end : Z := 7777.
+Definition race_op_ok (o : op aval) : bool :=
+  match o with
+  | Event _ None _ => false
+  | End t => negb (t =? 0)
+  | _ => true
+  end.
+Fixpoint race_groups (gs : list (list (list tok))) : option (list (list (op aval))) :=
+  match gs with
+  | [] => Some []
+  | g :: r => match parse_all parse_op g, race_groups r with
+              | Some t, Some r' => if forallb race_op_ok t then Some (t :: r') else None
+              | _, _ => None
+              end
+  end.
+Fixpoint parse_rkinds (l : list tok) : option (list pkind) :=
+  match l with
+  | [] => Some []
+  | t :: r => if is_tag "S" t then option_map (cons PSimple) (parse_rkinds r)
+              else if is_tag "Q" t then option_map (cons PBatch) (parse_rkinds r)
+              else None
+  end.
+Definition is_sched_sec (sec : list tok) : bool := match sec with t :: _ => is_tag "s" t | [] => false end.
+
+Definition parse_rcase (l : list tok) : option rcase :=
+  match split_toks "|" l with
+  | (tr :: kinds) :: st :: rest =>
+      if is_tag "SRACE" tr && Nat.leb 1 (List.length kinds) && Nat.leb (List.length kinds) 4 then
+        match parse_rkinds kinds, with_attrs st with
+        | Some ks, Some ([tst; TB name; TZ kind; TZ sys; TZ steady], sa) =>
+            if is_tag "ST" tst && (0 <=? kind) && (kind <=? 4) && ts_ok sys && ts_ok steady && negb (sys =? 0) && negb (steady =? 0) then
+              match split_secs "T" (filter (fun s => negb (is_sched_sec s)) rest) with
+              | [] :: groups =>
+                  match race_groups groups with
+                  | Some ths =>
+                      if Nat.leb 1 (List.length ths) && Nat.leb (List.length ths) 4 &&
+                         nodup_names (map (fun e => fst (fst e)) (events_of (List.concat ths)))
+                      then Some (mk_rcase (mk_cfg ks true (bs "l", [], []) []) (mk_start name kind sys steady sa []) ths)
+                      else None
+                  | None => None
+                  end
+              | _ => None
+              end
+            else None
+        | _, _ => None
+        end
+      else None
+  | _ => None
+  end.
+
+(* the threads plus the controller's End as one more thread *)
+Definition race_threads (c : rcase) : list (list (op aval)) := (rc_threads c ++ [[End final_end]])%list.
+
+Fixpoint parse_hist (l : list tok) : option (list hev) :=
+  match l with
+  | [] => Some []
+  | t :: TZ a :: TZ b :: TZ r :: rest =>
+      if is_tag "B" t then option_map (cons (mk_hev true (Z.to_nat a) (Z.to_nat b) r)) (parse_hist rest)
+      else if is_tag "R" t then option_map (cons (mk_hev false (Z.to_nat a) (Z.to_nat b) r)) (parse_hist rest)
+      else None
+  | _ => None
+  end.
+Fixpoint cut_at (s : string) (l : list tok) : list tok * list tok :=
+  match l with
+  | [] => ([], [])
+  | t :: r => if is_tag s t then ([], r) else let '(a, b) := cut_at s r in (t :: a, b)
+  end.
+Definition parse_rtrace (tr : list tok) : option (list hev * list (list sdata)) :=
+  match tr with
+  | th :: r =>
+      if is_tag "H" th then
+        let '(hs, xs) := cut_at "X" r in
+        match parse_hist hs, parse_obs xs with
+        | Some h, Some (_, got) => Some (h, got)
+        | _, _ => None
+        end
+      else None
+  | [] => None
+  end.
+
+(* the history of thread t, as the list of its events, must be B t 0, R t 0, B t 1, R t 1, ... for all its operations *)
+Fixpoint expected_events (t i n : nat) : list (bool * nat * nat) :=
+  match n with O => [] | S k => (true, t, i) :: (false, t, i) :: expected_events t (S i) k end.
+Definition hev_key (e : hev) : bool * nat * nat := (h_begin e, h_tid e, h_idx e).
+Definition key_eqb (a b : bool * nat * nat) : bool :=
+  Bool.eqb (fst (fst a)) (fst (fst b)) && Nat.eqb (snd (fst a)) (snd (fst b)) && Nat.eqb (snd a) (snd b).
+Fixpoint thread_hist_ok (ths : list (list (op aval))) (t : nat) (h : list hev) : bool :=
+  match ths with
+  | [] => true
+  | ops :: r =>
+      list_eqb key_eqb (map hev_key (filter (fun e => Nat.eqb (h_tid e) t) h)) (expected_events t 0 (List.length ops)) &&
+      thread_hist_ok r (S t) h
+  end.
+Definition history_ok (c : rcase) (h : list hev) : bool :=
+  thread_hist_ok (race_threads c) 0 h &&
+  forallb (fun e => Nat.ltb (h_tid e) (List.length (race_threads c))) h &&
+  (* the controller's End begins after everything else has returned *)
+  Nat.eqb (pb h (List.length (rc_threads c), O)) (List.length h - 2).
+
+Definition is_srace (l : list tok) : bool := match l with t :: _ => is_tag "SRACE" t | [] => false end.
+
+Definition run_model (l : list tok) : list tok :=
+  let '(c, tr) := cut_bars l in
+  if is_srace c then
+    match parse_rcase c with
+    | Some rc => match parse_rtrace tr with
+                 | Some (h, _) => if history_ok rc h then [tag "OK"] else [tag "REJECT"; tag "history_is_not_a_history_of_this_case"]
+                 | None => [tag "REJECT"; tag "trace_unparsable"]
+                 end
+    | None => bad_case
+    end
+  else run_model_seq c.
+
+Definition run_tag (l : list tok) : list tok :=
+  let '(c, tr) := cut_bars l in
+  if is_srace c then
+    match parse_rcase c with
+    | Some rc => [tag ("srace_p" ++ nat_tag (List.length (c_procs (rc_cfg rc))) ++ "_t" ++ nat_tag (List.length (rc_threads rc)))]
+    | None => bad_case
+    end
+  else run_tag_seq c.
+
+Definition run_spec (l obs : list tok) : list tok :=
+  let '(c, tr) := cut_bars l in
+  if is_srace c then
+    match parse_rcase c with
+    | Some rc =>
+        match obs with
+        | [t] => if is_tag "OK" t then
+                   match parse_rtrace tr with
+                   | Some (h, got) =>
+                       check (history_ok rc h) "srace:history_malformed" ++
+                       race_check (rc_cfg rc) (rc_start rc) (race_threads rc) h got
+                   | None => fail "obs:unparsable"
+                   end
+                 else fail "srace:run_did_not_finish"
+        | _ => fail "srace:run_did_not_finish"
+        end
+    | None => bad_case
+    end
+  else run_spec_seq c obs.
